@@ -299,7 +299,19 @@ def make_class(spec, drv, tag='', parent=None):
         ns['enablePoll'] = spec['enablePoll']
     # 'features': feature mixins; <parent>: the class of another generated module this one is derived from
     bases = tuple(FEATURES[f] for f in spec.get('features', ())) + (parent or base,)
+    if spec.get('late_limits'):
+        # the module learns the limits of a parameter from its hardware when it is started (as e.g. the entangle
+        # modules do): the datatype is adjusted in startModule, after the node was built
+        ll = spec['late_limits']
+
+        def startModule(self, start_events):
+            self.parameters[ll['p']].datatype.set_properties(min=ll['min'], max=ll['max'])
+            return super(cls_holder[0], self).startModule(start_events)
+        cls_holder = []
+        ns['startModule'] = startModule
     cls = type(f'Gen_{mname}{tag}', bases, ns)
+    if spec.get('late_limits'):
+        cls_holder.append(cls)
     if late_ns:
         late_ns['__module__'] = __name__
         cls = type(f'Gen_{mname}{tag}_sub', (cls,), late_ns)
@@ -326,6 +338,13 @@ def module_cfg(spec, cls):
             cfg.setdefault(p['name'], {})
             raw = p['constant_cfg']
             cfg[p['name']]['constant'] = float(raw) if raw in ('inf', '-inf') else dtgen.to_internal(p['di'], p['constant'])
+    for p in spec['params']:
+        # a parameter which is changeable in the class, locked by the configuration
+        if p.get('cfg_readonly'):
+            cfg.setdefault(p['name'], {})
+            if not isinstance(cfg[p['name']], dict):
+                cfg[p['name']] = {'value': cfg[p['name']]}
+            cfg[p['name']]['readonly'] = True
     for p in spec['params']:
         # the export property of a parameter given in the configuration (True, False or another wire name)
         if p.get('cfg_export') is not None:
